@@ -146,7 +146,7 @@ Definition sdk_validate_hop (ingress : bool) (after_change : bool) (cur_if now :
            (h : hopf) (i : infof) : option serr :=
   let ing := hop_ingress h i in
   let eg := hop_egress h i in
-  if ingress && negb (cur_if =? 0) && negb (ing =? 0) && negb (ing =? cur_if)
+  if ingress && negb after_change && negb (cur_if =? 0) && negb (ing =? cur_if)
   then Some (EInvalidIngress (i_cons i))
   else if negb ingress && negb (eg =? cur_if) then Some (EInvalidEgress (i_cons i))
   else if now <? i_ts i then Some EFuture
